@@ -27,9 +27,65 @@ GEN = {
     "str": lambda i: f"s{i}q", "bytes": lambda i: f"b{i}".encode(), "date": D, "datetime": T,
     "object": lambda i: (f"o{i}" if i % 2 else 5000 + i), "list": lambda i: [i, i + 1],
 }
+class _StrictEq:
+    """a record class whose __eq__ only knows its own kind (other.x raises AttributeError for a str)"""
+    def __init__(self, x):
+        self.x = x
+
+    def __eq__(self, other):
+        return self.x == other.x
+
+    def __hash__(self):
+        return hash(self.x)
+
+    def __repr__(self):
+        return f"rec{self.x}q"
+
+
+class _AnyEq:
+    """compares equal to everything (unittest.mock.ANY does): it is still a value of its own and shown as such"""
+    def __init__(self, x):
+        self.x = x
+
+    def __eq__(self, other):
+        return True
+
+    def __ne__(self, other):
+        return False
+
+    def __hash__(self):
+        return 1
+
+    def __repr__(self):
+        return f"any{self.x}q"
+
+
+class _NoBoolEq:
+    """__eq__ returns something that has no truth value (array-like objects do)"""
+    def __init__(self, x):
+        self.x = x
+
+    def __eq__(self, other):
+        return _NoBool()
+
+    def __hash__(self):
+        return 2
+
+    def __repr__(self):
+        return f"arr{self.x}q"
+
+
+class _NoBool:
+    def __bool__(self):
+        raise TypeError("truth value is ambiguous")
+
+
+GEN["strict-eq"] = lambda i: _StrictEq(i)
+GEN["any-eq"] = lambda i: _AnyEq(i)
+GEN["nobool-eq"] = lambda i: _NoBoolEq(i)
 SPECIAL_FLOATS = [NAN, INF, -INF, -0.0, 1e308, 1e-5, 2.0,
                   # ints held by a float vector (an int belongs to the float kind): small, beyond 2**53, beyond the float range
-                  3, 2 ** 53 + 1, 10 ** 400, -10 ** 400]
+                  3, 2 ** 53 + 1, 10 ** 400, -10 ** 400, True, False]
 SETTINGS = [None, 0, 1, 2, 3, 4, 5, 12, 13]
 NAMESV = [None, "nm", "x y", "sum", "", 5, (1, 2), 2.5, [1, 2], {"k": 1}]          # names need not be strings (Table({1: [...]})), nor hashable (v.name = [...])
 
@@ -123,6 +179,22 @@ def check_vector(agg, values, name, setting, declared=None):
     judge_vector_text(agg, text, v, values, name, n, half, case)
 
 
+def _reads_back_rule(v, val):
+    s = v.schema()
+    return (s is not None and s.kind is float and isinstance(val, (bool, int, float)) and val == val and abs(val) < 1e300)
+
+
+def _reads_back(txt, val):
+    if txt in ("True", "False"):
+        return isinstance(val, bool) and txt == str(val)
+    try:
+        x = float(txt)
+    except ValueError:
+        return False
+    f = float(val)
+    return x == f or abs(x - f) <= 1e-6 * max(abs(f), 1e-300)
+
+
 def judge_vector_text(agg, text, v, values, name, n, half, case, site="repr.vector"):
     if not isinstance(text, str):
         agg.violation(V(site, "not-a-string", case))
@@ -169,6 +241,12 @@ def judge_vector_text(agg, text, v, values, name, n, half, case, site="repr.vect
         if idx == "...":
             if line.strip() != "...":
                 agg.violation(V(site, "ellipsis-misplaced", case, "...", line))
+                return
+        elif _reads_back_rule(v, values[idx]):
+            # a real number shown in a float vector (floats, and the ints and bools such a vector may hold) must READ BACK as its
+            # value: '1.0' or 'True' for True, never text that denotes no number at all
+            if not _reads_back(line.strip(), values[idx]):
+                agg.violation(V(site, "numeric-cell-does-not-read-back-as-its-value", dict(case, row=idx), repr(values[idx]), line))
                 return
         elif token(values[idx]) not in line:
             agg.violation(V(site, "row-shows-wrong-value", dict(case, row=idx), token(values[idx]), line))
